@@ -421,7 +421,7 @@ fn build_env(repo: &PathBuf) -> Env {
             .iter()
             .map(|s| s.to_string())
             .collect(),
-        unknown_ops: ["foo", "", "Utm", "utm32", "é", "proj", "step", "_", "no:such", ":", "a:", ":b", "m:a:b", "geo:in", "geo:out", "gis:in", "neu:out", "stupid:way", "stupid:way_too", "nkg:etrf2014", "pipeline"]
+        unknown_ops: ["foo", "", "Utm", "utm32", "é", "proj", "step", "_", "no:such", ":", "a:", ":b", "m:a:b", "geo:in", "geo:out", "gis:in", "neu:out", "stupid:way", "stupid:way_too", "nkg:etrf2014", "pipeline", "nkg:itrf2014-sweref99", "nkg:itrf2014-etrs89dk", "nkg:test", "stupid:bad", "stupid:add_x", "stupid:add_something", "stupid:addthree", "stupid:way_three"]
             .iter()
             .map(|s| s.to_string())
             .collect(),
@@ -1479,7 +1479,7 @@ fn catalogue() -> Vec<(String, String, bool)> {
     add("latlon", &["latlon inv"]);
     add("latlong", &["latlong"]);
     add("lonlat", &["lonlat"]);
-    add("macro", &["geo:in | cart | helmert x=1 | cart inv | geo:out", "gis:in | utm zone=32", "neu:in | enu:out", "+proj=utm +zone=32 +ellps=GRS80", "proj=pipeline step proj=cart step proj=helmert x=1 step inv proj=cart", "+proj=pipeline +inv +step +proj=tmerc +a=6378137 +rf=298.257 +k=0.9996 +step +proj=merc +lat_ts=56"]);
+    add("macro", &["nkg:itrf2014-sweref99", "nkg:itrf2014-etrs89dk inv", "nkg:test", "stupid:bad", "stupid:add_x x=3", "stupid:add_something", "stupid:addthree", "stupid:way_three | stupid:way", "geo:in | cart | helmert x=1 | cart inv | geo:out", "gis:in | utm zone=32", "neu:in | enu:out", "+proj=utm +zone=32 +ellps=GRS80", "proj=pipeline step proj=cart step proj=helmert x=1 step inv proj=cart", "+proj=pipeline +inv +step +proj=tmerc +a=6378137 +rf=298.257 +k=0.9996 +step +proj=merc +lat_ts=56"]);
     let mut out: Vec<(String, String, bool)> = v.into_iter().map(|(a, b, c)| (a.to_string(), b, c)).collect();
     // ellipsoid shapes for every operator with an ellps key (first canonical definition)
     let base: Vec<(String, String, bool)> = out.clone();
